@@ -46,6 +46,9 @@ type Request struct {
 	doneCh       chan struct{}
 	processMutex sync.Mutex
 	isProcessed  bool
+	// abandoned is set (under the queue's mutex) when the waiter gave up at its
+	// TTL; the window processor skips such requests without spending quota
+	abandoned bool
 }
 
 func NewRequest(id string, priority float64, clock clock.Clock) *Request {
